@@ -81,7 +81,7 @@ def run(ctx):
     import warnings
     warnings.filterwarnings('ignore')
     from taskchain.task import InputTasks
-    from taskchain import Chain
+    from taskchain import Chain, Config
     n = ctx.n(250, 4000)
     reqs, meta = [], []
     for i in range(n):
@@ -138,7 +138,9 @@ def run(ctx):
         rng = ctx.rng('chain', i)
         names = gen_names(rng)
         objs = {nm: object() for nm in names}
-        chain = Chain.__new__(Chain); dict.__init__(chain); chain.tasks = dict(objs)
+        # (a chain made by its constructor — from an empty config — whose task table is then replaced: look-ups see a fully initialised object)
+        chain = Config(ctx.tmpdir() / 'c10-empty', name='empty', data={}).chain()
+        chain.tasks = dict(objs)
         it = InputTasks()
         for k, v in objs.items():
             it[k] = v
@@ -147,16 +149,30 @@ def run(ctx):
             case = {'names': list(names), 'q': q, 'via': 'Chain/InputTasks'}
             ctx.case(case, nontrivial=len(names) > 1)
             ctx.count('via_chain')
-            got = []
             for cont in (chain, it):
-                try:
-                    got.append({'ok': [k for k, v in objs.items() if v is cont[q]][0]})
-                except KeyError as e:
-                    got.append({'error': 'ambiguous' if 'Ambiguous' in str(e) else 'not_found'})
-                if (q in cont) != ('ok' in exp):
-                    ctx.fail('`in` disagrees with name resolution', case, {'in': q in cont, 'find': exp})
-            if any(g != exp for g in got):
-                ctx.fail('Chain[...] / input_tasks[...] resolve differently from _find_task_full_name', case, {'got': got, 'find': exp})
+                # several look-ups of ONE name on ONE container, in any order: every answer is the resolution of the name among the
+                # registered names — an earlier `in`, a failed or a successful look-up leaves nothing behind
+                seq = [rng.choice(['getitem', 'in', 'get']) for _ in range(rng.randint(2, 4))]
+                if 'getitem' not in seq:
+                    seq.append('getitem')
+                for step, how in enumerate(seq):
+                    ctx.count('lookup:' + how)
+                    if how == 'in':
+                        got_in = q in cont
+                        if got_in != ('ok' in exp):
+                            ctx.fail('`in` disagrees with name resolution', case, {'in': got_in, 'find': exp, 'sequence': seq[:step + 1]})
+                            break
+                        continue
+                    try:
+                        obj = cont[q] if how == 'getitem' else cont.get(q)
+                        hit = [k for k, v in objs.items() if v is obj]
+                        got = {'ok': hit[0]} if hit else {'returned': repr(obj)[:40]}
+                    except KeyError as e:
+                        got = {'error': 'ambiguous' if 'Ambiguous' in str(e) else 'not_found'}
+                    if got != exp:
+                        ctx.fail('Chain[...] / input_tasks[...] resolve differently from _find_task_full_name', case,
+                                 {'container': type(cont).__name__, 'how': how, 'got': got, 'find': exp, 'sequence': seq[:step + 1]})
+                        break
         # a registry that GROWS between two look-ups: the answer always refers to the names registered now (a name that was unique can
         # become ambiguous, a missing one can appear)
         items = list(objs.items())
